@@ -687,6 +687,15 @@ func Run(ctx *core.Ctx) {
 		}
 	}
 
+	// (i) the text of a limit: what number SizeSuffix.Set reads out of it
+	for i, n := 0, ctx.N(800, 8000); i < n; i++ {
+		sc := genSize(ctx.Rng.Sub())
+		checkSize(ctx, sc)
+		if i == 0 {
+			ctx.Sample(sc)
+		}
+	}
+
 	// (c) wall clock; (e) the full-duplex cases run beside them
 	xfers := genXfers(ctx)
 	duplex := genDuplex(ctx, ctx.Rng.Sub())
@@ -718,6 +727,10 @@ func Replay(ctx *core.Ctx, raw json.RawMessage) {
 		var c ctorCase
 		json.Unmarshal(raw, &c)
 		checkCtor(ctx, c)
+	case "size":
+		var c sizeCase
+		json.Unmarshal(raw, &c)
+		checkSize(ctx, c)
 	case "xfer":
 		var c xferCase
 		json.Unmarshal(raw, &c)
